@@ -12,6 +12,9 @@
 //	        durMs > 0: the probe takes that many ms (default 0.3 ms). Neither has any effect in the model:
 //	        the core does not abort a call at its timeout and collects its result at the await point whenever
 //	        the call finishes (docs/handbook/configuration.md, callable/call.go).
+//	        oK may also NAME THE WAY the K-th execution of a call hook fails (an atom other than 0 / 1; 1 = the
+//	        plugin writes __call_error, the only way there was before): see ways.go. Hooks without such an
+//	        atom run exactly as before.
 //	req  := (T ev bodyOk rnFail) | (C ev bodyOk rnFail) | (D force relOk1 relOk2)
 //	      | (TR ev bodyOk rnFail) | (CR ev bodyOk rnFail)
 //	        like T / C, but the task-level body is the REAL one of core/environment/transition_*.go
@@ -32,11 +35,17 @@
 //
 //	(M step s|f)                   Ev_EnvironmentEvent "transition step starting/finished"
 //	(XS id k) (XE id k fails snap st)   probe call: entry / exit (snap = variables of the call's VarStack)
+//	(XE id k 1 snap st way)        the same for an execution that failed in a NAMED way (ways.go)
 //	(H (id k fails)…)              hookHandlerF invoked with these task hooks
 //	(B ev)                         the scripted task-level body ran / the fake task manager received the
 //	                               command of the real body of ev (named after the command: START→START_ACTIVITY …)
 //	(RE transition status rn ts)   Ev_RunEvent published (ts = timestamp it was published with)
 //	(R result state rn vars pending gone)   the request returned
+//	(OV queued|returned|elsewhere st0 st1)  overlapping pair (P q1 q2), q1 parked inside its critical section:
+//	                               q2 was seen waiting for the transition mutex / returned / blocked elsewhere;
+//	                               st0, st1 = the state reported before q2 was issued and after that sighting
+//	                               (both while q1 still holds the mutex). A q2 that returned has its R record
+//	                               right after this one, i.e. BEFORE q1's.
 //	(Q n)                          end of the case, after every probe call has returned: n goroutines of
 //	                               callable.(*Call).Start hold a result that was neither collected (Await) nor
 //	                               cancelled (teardown) — counted before the harness's own clean-up teardown
@@ -119,6 +128,8 @@ type hookDef struct {
 	execs    int32
 	timeout  int // ms, 0 = default
 	dur      int // ms the probe takes, 0 = default
+	ways     []string // per execution: "" = the plugin writes __call_error (outcome atoms 0 / 1), else the named way (ways.go)
+	hasWays  bool     // some execution fails in a named way: the hook goes through waysStack
 }
 
 type caseState struct {
@@ -130,6 +141,7 @@ type caseState struct {
 	pace    bool
 	body    atomic.Pointer[bodyScript] // TR/CR: scripted answer of the fake task manager to the next command of a real body
 	gate    atomic.Pointer[gateT] // overlapping requests: where the first one is parked inside its critical section
+	badWay  atomic.Pointer[string] // ways.go: an execution the input does not script consistently (infrastructure error)
 	hold    atomic.Pointer[holdT] // overlapping requests: the second one is parked at its first published event
 }
 
@@ -282,6 +294,11 @@ func (p *probePlugin) CallStack(data interface{}) map[string]interface{} {
 	if !ok {
 		return nil
 	}
+	if cs := cur.Load(); cs != nil {
+		if h := cs.hooks[call.GetParentRolePath()]; h != nil && h.hasWays {
+			return waysStack(cs, h, call)
+		}
+	}
 	return map[string]interface{}{
 		"Probe": func() string {
 			cs := cur.Load()
@@ -415,9 +432,9 @@ func buildYAML(hooks []*hookDef, nTasks int) string {
 			b.WriteString("      load: cls\n      timeout: 5s\n")
 		} else {
 			if h.timeout > 0 {
-				fmt.Fprintf(&b, "      func: verifprobe.Probe()\n      timeout: %dms\n", h.timeout)
+				fmt.Fprintf(&b, "      func: %s\n      timeout: %dms\n", h.funcExpr(), h.timeout)
 			} else {
-				b.WriteString("      func: verifprobe.Probe()\n      timeout: 5s\n")
+				fmt.Fprintf(&b, "      func: %s\n      timeout: 5s\n", h.funcExpr())
 			}
 		}
 		fmt.Fprintf(&b, "      trigger: %s%+d\n      await: %s%+d\n      critical: %v\n", h.trig, h.tw, h.await, h.aw, h.crit)
@@ -437,7 +454,15 @@ func parseHooks(n *sx.Node) []*hookDef {
 		d := &hookDef{id: h.At(0).Int(), isTask: h.At(1).Str() == "task", crit: h.At(2).Bool(),
 			trig: h.At(3).Str(), tw: h.At(4).Int(), await: h.At(5).Str(), aw: h.At(6).Int()}
 		for _, o := range h.At(7).List {
+			if w := o.Str(); !o.IsList && w != "0" && w != "1" && w != "true" && w != "false" && w != "" {
+				// the K-th execution fails in the named way
+				d.outcomes = append(d.outcomes, true)
+				d.ways = append(d.ways, w)
+				d.hasWays = true
+				continue
+			}
 			d.outcomes = append(d.outcomes, o.Bool())
+			d.ways = append(d.ways, "")
 		}
 		if h.Len() >= 10 {
 			d.timeout, d.dur = h.At(8).Int(), h.At(9).Int()
@@ -547,6 +572,9 @@ func Run(input string, paced bool) (string, error) {
 		return "", err
 	}
 	hooks := parseHooks(in.At(0))
+	if err := checkWays(hooks); err != nil {
+		return "", err
+	}
 	nTasks := in.At(2).Int()
 	cs := &caseState{hooks: map[string]*hookDef{}, byTask: map[string]*hookDef{}, pace: paced}
 	// results held by call goroutines of earlier cases (none on a healthy tree)
@@ -757,9 +785,18 @@ func Run(input string, paced bool) (string, error) {
 		}
 		// (P q1 q2): q2 is issued by a second caller while q1 is inside its critical section
 		q1, q2 := q.At(1), q.At(2)
-		cs.relMu.Lock()
-		cs.relOk = nil // every release round succeeds
-		cs.relMu.Unlock()
+		// release rounds of a teardown in a pair: as scripted by its own fields (pairs generated so far say
+		// "both succeed"); the script is installed when nobody else can be consuming rounds: q1's before it is
+		// issued, q2's once q1 has returned (q2 is then still waiting for the mutex or parked at its first event)
+		scriptFor := func(q *sx.Node) {
+			cs.relMu.Lock()
+			cs.relOk = nil
+			if q.At(0).Str() == "D" {
+				cs.relOk = []bool{q.At(2).Bool(), q.At(3).Bool()}
+			}
+			cs.relMu.Unlock()
+		}
+		scriptFor(q1)
 		g := &gateT{reached: make(chan struct{}), release: make(chan struct{})}
 		g.armed.Store(true)
 		cs.gate.Store(g)
@@ -782,6 +819,7 @@ func Run(input string, paced bool) (string, error) {
 				return "", err
 			}
 			record(aErr)
+			scriptFor(q2)
 			rerr := exec(q2, false)
 			if err := settle(q2); err != nil {
 				return "", err
@@ -789,6 +827,9 @@ func Run(input string, paced bool) (string, error) {
 			record(rerr)
 			continue
 		}
+		// q1 is parked inside its critical section and holds the transition mutex: whatever the reported state
+		// does from here until the gate opens is not q1's doing
+		st0 := env.CurrentState()
 		h := &holdT{ch: make(chan struct{})}
 		bDone := make(chan error, 1)
 		started := make(chan struct{})
@@ -800,11 +841,25 @@ func Run(input string, paced bool) (string, error) {
 		}()
 		<-started
 		var bErr error
-		bFinished, werr := waitParked(h.gid, bDone, &bErr)
+		bFinished, onMutex, werr := waitParked(h.gid, bDone, &bErr)
 		if werr != nil {
 			close(g.release)
 			close(h.ch)
 			return "", werr
+		}
+		// (OV how st0 st1): what the second caller was seen doing while the first is still parked inside its
+		// critical section — queued on the transition mutex, returned, or blocked elsewhere — and the state the
+		// environment reported before the second caller was issued and now. A request that returned is
+		// recorded where it returned: before the first one's.
+		how := "elsewhere"
+		if bFinished {
+			how = "returned"
+		} else if onMutex {
+			how = "queued"
+		}
+		rec.add(sx.L(sx.A("OV"), sx.A(how), sx.A(st0), sx.A(env.CurrentState())))
+		if bFinished {
+			record(bErr)
 		}
 		close(g.release)
 		cs.gate.Store(nil)
@@ -818,6 +873,7 @@ func Run(input string, paced bool) (string, error) {
 			close(h.ch)
 			return "", err
 		}
+		scriptFor(q2)
 		record(aErr) // q2 is parked at its first event (mutex held, nothing changed yet), or has not got the mutex yet
 		close(h.ch)
 		cs.hold.Store(nil)
@@ -831,7 +887,9 @@ func Run(input string, paced bool) (string, error) {
 		if err := settle(q2); err != nil {
 			return "", err
 		}
-		record(bErr)
+		if !bFinished {
+			record(bErr)
+		}
 	}
 	// let floating probe calls finish before the trace is cut: every goroutine spawned by
 	// callable.(*Call).Start must be parked in its select (call executed, result waiting to be
@@ -841,6 +899,9 @@ func Run(input string, paced bool) (string, error) {
 	}
 	if infraErr != nil {
 		return "", infraErr
+	}
+	if w := cs.badWay.Load(); w != nil {
+		return "", fmt.Errorf("infrastructure: %s", *w)
 	}
 	_, parked := callGoroutines()
 	rec.add(sx.L(sx.A("Q"), sx.I(max(parked-parked0, 0))))
@@ -912,7 +973,7 @@ func waitCallsQuiescent() error {
 // transitionMutex, within microseconds), or has finished (finished = true), or has been blocked on
 // something else for a while (only a tree without the mutex gets there: the overlap is then real and
 // shows in the trace).
-func waitParked(gid int64, done chan error, res *error) (finished bool, err error) {
+func waitParked(gid int64, done chan error, res *error) (finished, onMutex bool, err error) {
 	deadline := time.Now().Add(30 * time.Second)
 	buf := make([]byte, 4<<20)
 	head := fmt.Sprintf("goroutine %d [", gid)
@@ -920,7 +981,7 @@ func waitParked(gid int64, done chan error, res *error) (finished bool, err erro
 	for {
 		select {
 		case *res = <-done:
-			return true, nil
+			return true, false, nil
 		default:
 		}
 		n := runtime.Stack(buf, true)
@@ -941,18 +1002,18 @@ func waitParked(gid int64, done chan error, res *error) (finished bool, err erro
 			(strings.Contains(stack, ".TryTransition(") || strings.Contains(stack, ".TeardownEnvironment("))
 		switch {
 		case (strings.Contains(st, "Mutex") || strings.Contains(st, "semacquire")) && onTransitionMutex:
-			return false, nil
+			return false, true, nil
 		case st == "" || strings.HasPrefix(st, "running") || strings.HasPrefix(st, "runnable") || strings.HasPrefix(st, "syscall"):
 			otherSince = time.Time{}
 		default:
 			if otherSince.IsZero() {
 				otherSince = time.Now()
 			} else if time.Since(otherSince) > 300*time.Millisecond {
-				return false, nil
+				return false, false, nil
 			}
 		}
 		if time.Now().After(deadline) {
-			return false, fmt.Errorf("infrastructure: second request of an overlapping pair neither parked nor returned within 30s")
+			return false, false, fmt.Errorf("infrastructure: second request of an overlapping pair neither parked nor returned within 30s")
 		}
 		time.Sleep(200 * time.Microsecond)
 	}
